@@ -116,7 +116,8 @@ def run(ctx):
                 # chain then continues through the default-rule fallback
                 k = rng.randrange(1, nn - 1)
                 rules[k] = (names[k], ev.rule(rng.choice(['zz', 'yy'])))
-        dflt = rng.choice([('opt', None), ('name', names[-1]), ('check', ev.role('r1')), None, ('opt', 'zz')])
+        dflt = rng.choice([('opt', None), ('name', names[-1]), ('check', ev.role('r1')), None, ('opt', 'zz'),
+                           ('check', ev.T), ('check', ev.Or(ev.role('r1'), ev.role('r2'))), ('check', ev.Not(ev.role('r2')))])
         queries = rng.sample(names, min(3, nn)) + ['zz']
         # some of the names are registered in code with scope types: the scope gate belongs to the name
         # that is ENFORCED, never to a name it merely refers to
